@@ -84,6 +84,13 @@ fn families() -> Vec<Family> {
             len_thorough: 9,
         },
         Family {
+            name: "l-names-with-underscore(to_i unary, N_A constant, t_ unary)",
+            table: Table::new(vec![OpDesc::un("to_i"), OpDesc::cst("N_A", 43), OpDesc::un("t_"), OpDesc::bin_un("-", 0, false)]),
+            chars: vec!["t", "o", "_", "i", "N", "A", "5", "x", " ", "("],
+            len_quick: 7,
+            len_thorough: 8,
+        },
+        Family {
             name: "h-greek(σ unary, π constant)",
             table: Table::new(vec![OpDesc::un("σ"), OpDesc::cst("π", 31), OpDesc::bin_un("+", 0, true), OpDesc::un("σσ")]),
             chars: vec!["π", "σ", "α", "Ω", "a", "2", " ", "+", "_"],
